@@ -72,7 +72,11 @@ BadTypes == { Lit(NumD(N1), <<R("type", IdV("string"))>>), Lit(StrD(Sa), <<R("ty
               Lit(BoolD(TRUE), <<R("or", [t |-> "list", items |-> <<[t |-> "tref", s |-> "@I"], [t |-> "tref", s |-> "@S"]>>])>>) }
 BadArrs == { Arr(<<Plain1, Plain1, Plain1>>, <<R("maxItems", NV(N2))>>), Arr(<<Plain1>>, <<R("minItems", NV(N2))>>),
              Arr(<<Plain1, PlainS>>, <<R("minItems", NV(N3)), R("maxItems", NV(N5))>>) }
-BadLeaves == BadNums \cup BadStrs \cup BadFmts \cup BadEnums \cup BadTypes \cup BadArrs
+\* an empty container whose kind is not among its or-alternatives
+BadOrContainers == { Arr(<<>>, <<R("or", [t |-> "list", items |-> <<IdV("string"), IdV("integer")>>])>>),
+                     Arr(<<>>, <<R("or", [t |-> "list", items |-> <<[t |-> "set", rules |-> <<R("type", IdV("object"))>>], [t |-> "set", rules |-> <<R("type", IdV("string"))>>]>>])>>),
+                     Obj(<<>>, <<R("or", [t |-> "list", items |-> <<IdV("string"), IdV("array")>>])>>) }
+BadLeaves == BadNums \cup BadStrs \cup BadFmts \cup BadEnums \cup BadTypes \cup BadArrs \cup BadOrContainers
 GoodLeaves == Schemas \cup {Arr(<<Plain1, Plain1>>, <<R("maxItems", NV(N2))>>), Arr(<<Plain1, PlainS>>, <<R("minItems", NV(N1)), R("maxItems", NV(N5))>>),
                             Lit(NumD(N1), <<R("type", [t |-> "tref", s |-> "@I"])>>),
                             Lit(StrD(Sa), <<R("or", [t |-> "list", items |-> <<IdV("integer"), IdV("string")>>])>>)}
